@@ -40,7 +40,7 @@ static rc::Gen<Step> genStep(const std::string &focus)
 				rng<int>(0, 15), rng<int>(0, 5), gen::weightedOneOf<int>({{3, rng<int>(0, 3)}, {focus == "C04" ? 3 : 1, rng<int>(4, 7)}}), rng<int>(0, 255));
 	int wiv = focus == "C17" ? 1 : 4;
 	auto ivg = gen::weightedOneOf<int>({{wiv, gen::element<int>(6, 8, 1, 17, 18)}, {2, rng<int>(0, IV_N - 1)}});
-	auto idle = gen::weightedElement<int>({{10, I_TIMEOUT}, {2, I_INTR}, {3, I_CLOSE}, {2, I_ERROR}, {3, I_NOTIFY}, {focus == "C07" || focus == "C05" ? 3 : 1, I_STOP_RESTART}, {focus == "C17" ? 4 : 1, I_LATE_INTR}, {focus == "C07" ? 4 : 1, I_STOP_MIDSYNC}});
+	auto idle = gen::weightedElement<int>({{10, I_TIMEOUT}, {2, I_INTR}, {3, I_CLOSE}, {2, I_ERROR}, {3, I_NOTIFY}, {focus == "C07" || focus == "C05" ? 3 : 1, I_STOP_RESTART}, {focus == "C17" ? 4 : 1, I_LATE_INTR}, {focus == "C07" ? 4 : 1, I_STOP_MIDSYNC}, {focus == "C04" ? 4 : 1, I_STRAY}});
 	auto part3 = gen::tuple(ivg, ivg, ivg, rng<int>(0, 255), gen::weightedElement<int>({{4, 0}, {2, 1}, {3, 2}, {1, 3}}), gen::weightedElement<int>({{5, 0}, {1, 1}}), idle, idle, idle,
 				rng<int>(0, 255), gen::container<std::vector<uint8_t>>(gen::arbitrary<uint8_t>()));
 	return gen::apply(
@@ -93,7 +93,8 @@ int main(int argc, char **argv)
 		if (mode == "chunk") o2.whole_chunks = true;
 		if (mode == "dirty") o2.dirty_override = sc.dirty ? 0 : 1;
 		Report r2 = run(sc, o2);
-		if (mode == "chunk" && r.digest != r2.digest) {
+		bool capped = r.cls.count("step-cap-hit(inconclusive)") || r2.cls.count("step-cap-hit(inconclusive)"); // the call budget is not part of the outcome
+		if (mode == "chunk" && r.digest != r2.digest && !capped) {
 			r.ok = false; r.prop = "C04"; r.sig = "C04:outcome-depends-on-chunking";
 			r.what = "the same conversation ends differently when the transport delivers/accepts the bytes in other chunk sizes: scripted chunking -> " + r.digest.substr(0, 300) + " ; largest chunks -> " + r2.digest.substr(0, 300);
 		}
